@@ -47,17 +47,24 @@ func IsClassDefined(frames []string, class string) bool {
 	return ok
 }
 
-// IsDefinedClassName answers whether some frame defines a class of this name.
-// It backs the lexical classification of names without a lower-case letter
-// (IO, K9): a constant by shape, a class once `class IO` has been seen.
-func IsDefinedClassName(class string) bool {
-	for key := range DefinedClassTable {
-		if key.class == class {
-			return true
-		}
-	}
+// sourceDefinedClassNames holds the names of the classes and modules the
+// analysed source itself defines (in any namespace).
+var sourceDefinedClassNames = make(map[string]bool)
 
-	return false
+// IsDefinedClassName answers whether the analysed source defines a class of
+// this name. It backs the lexical classification of names without a
+// lower-case letter (IO, K9): a constant by shape, a class once `class IO` has
+// been seen. Configured classes do not count: what the configuration declares
+// in some namespace must not change how a bare name is read.
+func IsDefinedClassName(class string) bool {
+	return sourceDefinedClassNames[class]
+}
+
+// SetSourceDefinedClass registers a class or module defined by the source.
+func SetSourceDefinedClass(frame, class string) {
+	sourceDefinedClassNames[class] = true
+
+	SetDefinedClass(frame, class)
 }
 
 func SetDefinedClass(frame, class string) {
